@@ -219,18 +219,4 @@ TESTS = [
     Test('ensemble', run_ens, strategy=lambda tier: ens_cases(tier), examples={'quick': 320, 'thorough': 8000}),
 ]
 
-def _kf_f21(case, subcheck, detail):
-    # SetStrictRanges(tight=True) builds its bounds constraint with symbolic.simplify, which draws test points from
-    # the global `random` stream: calling it before vs after the initial points shifts every later random draw
-    b = case.get('bounds')
-    if subcheck not in ('C07.order', 'C07.dup') or not b or b.get('tight') is not True or b.get('clip') is not None:
-        return False
-    if case.get('solver') not in ('DE', 'DE2'):
-        return False
-    seq = list(case['perm']); pos = min(case['init_pos'], len(seq)); seq.insert(pos, 'init')
-    ranges_before_init = seq.index('ranges') < seq.index('init')
-    dup_after_init = any(d[1] == 'ranges' and d[0] >= seq.index('init') and seq.index('ranges') <= d[0] for d in case.get('dups', []))
-    return ranges_before_init or dup_after_init
-
-
-KNOWN = {'F21-tight-ranges-consume-global-random': _kf_f21}
+KNOWN = {}
